@@ -870,6 +870,19 @@ def restored_rank(ctx, world, modes=("vjp",)):
 
         if leaf.op == "sub" and leaf.idx.op == "tuple" and leaf.idx.elts and all(crop_to_entry(i_) for i_ in leaf.idx.elts):
             return True
+        if leaf.op == "sub":
+            # x[tuple(slice(0, n) for n in shape(arg k))]: one crop per entry of the argument's shape
+            ix = leaf.idx
+            while ix.op == "seq":
+                ix = ix.value
+            if ix.op == "call" and ix.fn.op == "ref" and ix.fn.ref.qual in ("builtins.tuple", "builtins.list") and len(ix.args) == 1:
+                ix = ix.args[0]
+            if ix.op == "comp" and not ix.conds:
+                so = shape_owner(ix.src)
+                el = ix.elt
+                hi = el.hi if el.op == "slice" else (el.args[-1] if (el.op == "call" and el.fn.op == "ref" and el.fn.ref.qual == "builtins.slice" and 1 <= len(el.args) <= 2 and not el.kw) else None)
+                if so is not None and so.op == "arg" and so.get("index") == k and hi is not None and hi.op == "iterelem" and hi.src is ix.src:
+                    return True
         if leaf.op != "call":
             return False
         r0, pre0 = resolve_callee(world.ev, leaf)
